@@ -235,8 +235,8 @@ fn in_process_case(cx: &mut CaseCtx, input: Input, cfg: &GenCfg) -> CaseResult {
 /// file; with and without a use of the colliding name.
 fn collision_case(cx: &mut CaseCtx, input: Input) -> CaseResult {
     let idx = input.index();
-    let template = idx % 19;
-    let with_use = (idx / 19) % 2 == 1;
+    let template = idx % 21;
+    let with_use = (idx / 21) % 2 == 1;
     let files: Vec<(&str, String)> = match template {
         0 => vec![("a.slice", "module A\nstruct X {}\n".into()), ("b.slice", "module A\ncustom X\n".into())],
         1 => vec![
@@ -327,6 +327,16 @@ fn collision_case(cx: &mut CaseCtx, input: Input) -> CaseResult {
             ("a.slice", "[cs::fine] module Shared::Inner\nstruct A {}\n".into()),
             ("b.slice", "module Shared::Inner\ncustom B\n".into()),
             ("c.slice", format!("[allow(Deprecated)] {} module Shared::Inner\nstruct C {{}}\n", if with_use { "[allow(All)]" } else { "" })),
+        ],
+        // the same spelling of a type in two modules, legal in one and illegal in the other
+        19 => vec![
+            ("a.slice", "module M1\ncompact struct Key { a: int32 }\nstruct U1 { d: Dictionary<Key, string> }\n".into()),
+            ("b.slice", format!("module M2\nstruct Key {{ a: int32 }}\nstruct U2 {{ d: {} }}\n", if with_use { "Dictionary<Key, string>" } else { "Sequence<Dictionary<Key, string>>" })),
+        ],
+        20 => vec![
+            ("a.slice", "module M1\n[deprecated] struct Old {}\nstruct A1 { o: Old }\n".into()),
+            ("b.slice", format!("module M1\nstruct A2 {{ o: Old, p: Sequence<Old> }}\n{}", if with_use { "[allow(Deprecated)] struct A3 { o: Old }\n" } else { "" })),
+            ("c.slice", "module M2\nstruct B1 { o: M1::Old }\n".into()),
         ],
         _ => vec![
             ("a.slice", "module M\nenum Outer { A(x: Inner) }\nstruct Before { o: Outer }\n".into()),
@@ -507,7 +517,7 @@ impl Check for C15 {
         "C15"
     }
     fn rule(&self) -> String {
-        "families: in-process = proptest choice sequences -> multi-file programs (1..4 files, cross-file and cross-module references, aliases, inheritance, re-opened modules; valid, with warnings, or with one injected error) written to real files and compiled with compile_from_options in every permutation of the files and every source/reference assignment: acceptance, per-path observed content and the multiset of warnings (code, level, message, span) must not change, also when one file is listed twice (adjacent or apart); collisions = 38 templates (same definition in two files, definition vs nested module of another file, enumerator / field / operation / parameter / return member vs module of another file, preprocessor symbols defined in one file and tested in another, containment cycles spread over files and used from outside; each with and without a variation) in every order and every source/reference assignment; repetition = six texts with several errors of one kind on one element, compiled twelve times in one process (and by sixteen processes): the recorded list is the same every time; binary = the same argv (one generator with five arguments; now and then an extra module-less file at a drawn position) twice in fresh processes (byte-identical stdout, stderr, exit status, generator request) plus one random permutation and reference assignment (acceptance and per-path decoded request content). Non-trivial = >= 2 files".into()
+        "families: in-process = proptest choice sequences -> multi-file programs (1..4 files, cross-file and cross-module references, aliases, inheritance, re-opened modules; valid, with warnings, or with one injected error) written to real files and compiled with compile_from_options in every permutation of the files and every source/reference assignment: acceptance, per-path observed content and the multiset of warnings (code, level, message, span) must not change, also when one file is listed twice (adjacent or apart); collisions = 42 templates (same definition in two files, definition vs nested module of another file, enumerator / field / operation / parameter / return member vs module of another file, preprocessor symbols defined in one file and tested in another, containment cycles spread over files and used from outside; each with and without a variation) in every order and every source/reference assignment; repetition = six texts with several errors of one kind on one element, compiled twelve times in one process (and by sixteen processes): the recorded list is the same every time; binary = the same argv (one generator with five arguments; now and then an extra module-less file at a drawn position) twice in fresh processes (byte-identical stdout, stderr, exit status, generator request) plus one random permutation and reference assignment (acceptance and per-path decoded request content). Non-trivial = >= 2 files".into()
     }
     fn assumptions(&self) -> Vec<String> {
         vec!["only the order of files and of reports may change; error diagnostics of rejected programs are not compared across arrangements (only that they are rejected)".into()]
@@ -547,7 +557,7 @@ impl Check for C15 {
         };
         let cfg2 = cfg.clone();
         vec![
-            Family::enumerate("collisions", 38, 1, collision_case),
+            Family::enumerate("collisions", 42, 1, collision_case),
             Family::enumerate("repetition", 6 * 16, 1, repetition_case),
             Family::bytes("in-process", 700, tier.pick(600, 8_000), move |cx, i| in_process_case(cx, i, &cfg)),
             Family::bytes("binary", 700, tier.pick(60, 1_000), move |cx, i| binary_case(cx, i, &cfg2)),
